@@ -7,6 +7,7 @@ import (
 	"verif/internal/c01"
 	"verif/internal/c02"
 	"verif/internal/c03"
+	"verif/internal/c04"
 	"verif/internal/c11"
 	"verif/internal/c19"
 )
@@ -15,6 +16,7 @@ func init() {
 	monitors["C01"] = c01.Run
 	monitors["C02"] = c02.Run
 	monitors["C03"] = c03.Run
+	monitors["C04"] = c04.Run
 	monitors["C11"] = c11.Run
 	monitors["C19"] = c19.Run
 }
